@@ -532,6 +532,10 @@ class FnAnalysis:
                 self._assume(out, t.args[1], False)
                 self._assume(out, t.args[2], False)
         out.add(("true" if truth else "false", t))
+        if t.op == "bin" and t.args[0] in ("Lt", "Le"):
+            # a < b  <=>  !(b <= a)
+            dual = Term("bin", "Le" if t.args[0] == "Lt" else "Lt", t.args[2], t.args[1], t.args[3])
+            out.add(("false" if truth else "true", dual))
         if t.op == "bin" and t.args[0] in ("Eq", "Ne"):
             dual = Term("bin", "Ne" if t.args[0] == "Eq" else "Eq", t.args[1], t.args[2], t.args[3])
             out.add(("false" if truth else "true", dual))      # a != b  <=>  !(a == b)
@@ -665,6 +669,23 @@ class FnAnalysis:
                 else:
                     fields.append(self._struct_merge(b, (key[0], key[1] + (("f", i, None),)), sub))
             return T.agg(f0.args[0], f0.args[1], f0.args[2], f0.args[3], fields)
+        # a boolean that is `true` on the edges where c holds and `false` where it does not is c itself (`matches!(..)`,
+        # `if c { true } else { false }`, `match c { true => .., false => .. }`)
+        if len(vals) == 2 and all(t.op == "const" and t.args[0] == "bool" for t in ts) and ts[0] is not ts[1]:
+            (pa, ta), (pb, tb) = vals
+            sa, sb = self.out_states.get((pa, b)), self.out_states.get((pb, b))
+            if sa is not None and sb is not None:
+                from .terms import _skey_of
+                cands = []
+                for f in sa.facts:
+                    if f[0] in ("true", "false") and isinstance(f[1], Term) and (("false" if f[0] == "true" else "true"), f[1]) in sb.facts:
+                        cands.append(f)
+                if cands:
+                    f = min(cands, key=lambda f_: repr(_skey_of(f_[1])))
+                    c = f[1]
+                    # on edge a: c has truth (f[0] == "true") and the value is ta
+                    same = (f[0] == "true") == bool(ta.args[1])
+                    return c if same else T.un("Not", c, "bool")
         ph = T.phi((self.fid, b), key)
         self.phi_ops[ph] = dict(vals)
         if key[0][0] == "L" and not key[1]:
@@ -1276,7 +1297,11 @@ class Program:
         if items is None:
             sub = self.analysis(lf)
             if sub is not None and not sub.loops:
-                items = self.leaf_items(sub, lambda t, st: t)
+                ps_ = sub.paths()
+                if ps_ is not None and any(k[0][0] == "M" for _, st_, _ in ps_ for k in st_.env):
+                    items = None      # writes through a pointer: not a pure function of its arguments (see summaries.tree_summary)
+                else:
+                    items = self.leaf_items(sub, lambda t, st: t)
         if items:
             res = build_tree(items)
         if res is not None and self.known_name(lf):
@@ -1297,6 +1322,14 @@ class Program:
         items = []
         for t, st in leaves:
             v = value_of(sub.simp(t, st.facts), st)
+            if v is not None and any(x.op == "okelse" for x in v.subterms()):
+                # "a if R succeeded else b" is a case split on R
+                from .terms import rebuild
+                for _ in range(4):
+                    mp = {x: T.mterm(x.args[0], (("Ok", x.args[1]), ("Err", x.args[2]))) for x in v.subterms() if x.op == "okelse"}
+                    if not mp:
+                        break
+                    v = rebuild(v, mp)
             if v is None or not self._closed(v) or v.op == "never":
                 return None
             atoms = {}
@@ -1365,7 +1398,7 @@ class Program:
             sub = self.analysis(lf) if lf["qual"] not in KEEP_CALL else None
             if sub is not None:
                 rt = sub.ret_term()
-                if rt is not None and self._closed(rt) and not rt.has_tree():
+                if rt is not None and self._closed(rt) and not rt.has_tree() and not self.writes_memory(lf):
                     inst = self.subst(an, st, rt, args, self.gmap(lf, callee))
                     if inst is not None:
                         return inst
@@ -1391,7 +1424,7 @@ class Program:
             R = T.call(dq, generics, [args[0], args[1], T.refval(off0), args[3]])
             adv = T.bin("Add", off0, T.call("parse::ParseAt::size_for", generics[:1], [args[1]]), "usize")
             self.noovf.add(adv)
-            an.write(st, off_lv, Term("okelse", R, adv, T.fresh(site, "arg2:err")))
+            an.write(st, off_lv, Term("okelse", R, adv, Term("errval", R, 2)))     # the cursor a failed parse leaves behind: some function of the call
             return R
         # 3. external or unresolved callee
         if dq in ("iter::Iterator::position", "iter::Iterator::rposition") and args and args[0].op == "ref":
@@ -1507,6 +1540,11 @@ class Program:
                         r = self.apply_fn(an, st, f, list(cargs[1].args[4]))
                 elif (a[0].startswith("option::Option::") or a[0].startswith("result::Result::")) and any(x.op in ("agg", "fnptr") for x in cargs[1:]):
                     r = self._combinator(an, st, a[0], cargs)
+                elif a[1] and isinstance(a[1][0], str):
+                    # a method of an in-crate trait called on `Self` / a type parameter that is now a concrete type: use that type's impl
+                    imp = self.trait_impl(a[0], a[1][0])
+                    if imp is not None and not any("&mut" in x for x in (imp.get("sig") or {}).get("inputs", [])):
+                        r = self._apply_local(an, st, imp, cargs)
                 if r is None:
                     r = T.call(a[0], a[1], cargs)
             elif op == "discr":
@@ -1573,8 +1611,11 @@ class Program:
         if comb is not None:
             return comb
         if name in ("bool::then_some", "bool::then") and len(args) == 2:
-            v = args[1] if name.endswith("then_some") else self.apply_fn(an, st, args[1], [])
+            eff_ = []
+            v = args[1] if name.endswith("then_some") else self.apply_fn(an, st, args[1], [], eff_)
             if v is not None:
+                for lv, nv in eff_:
+                    an.write(st, lv, T.ite(args[0], nv, an.read(st, lv)))     # the closure runs only when the condition holds
                 return T.ite(args[0], T.agg("adt", "option::Option", 1, "Some", [v]), T.agg("adt", "option::Option", 0, "None", []))
         if name in ("ops::FnOnce::call_once", "ops::Fn::call", "ops::FnMut::call_mut") and len(args) == 2:
             # a direct call of a closure value / function item: apply it (the argument is the tuple of actual arguments)
@@ -1631,7 +1672,15 @@ class Program:
         opt = name.startswith("option::")
         good, bad = ("Some", "None") if opt else ("Ok", "Err")
         pg = T.payload(X, good)
-        ap = lambda f, a: self.apply_fn(an, st, f, a)
+        eff = []
+        ran = {}       # which arm ran a function with effects
+
+        def ap(f, a, arm=None):
+            n0 = len(eff)
+            v_ = self.apply_fn(an, st, f, a, eff)
+            if len(eff) > n0:
+                ran[arm] = True
+            return v_
         if opt:
             pb = None
             keep_bad = NONE
@@ -1645,19 +1694,19 @@ class Program:
         elif m == "err" and not opt and len(args) == 1:
             r = ((good, NONE), (bad, SOME(pb)))
         elif m == "map" and len(args) == 2:
-            v = ap(args[1], [pg])
+            v = ap(args[1], [pg], good)
             if v is not None:
                 r = ((good, wrap_good(v)), (bad, keep_bad))
         elif m == "and_then" and len(args) == 2:
-            v = ap(args[1], [pg])
+            v = ap(args[1], [pg], good)
             if v is not None:
                 r = ((good, v), (bad, keep_bad))
         elif m == "map_err" and not opt and len(args) == 2:
-            v = ap(args[1], [pb])
+            v = ap(args[1], [pb], bad)
             if v is not None:
                 r = ((good, OK(pg)), (bad, ERR(v)))
         elif m == "or_else" and len(args) == 2:
-            v = ap(args[1], [] if opt else [pb])
+            v = ap(args[1], [] if opt else [pb], bad)
             if v is not None:
                 r = ((good, wrap_good(pg)), (bad, v))
         elif m == "map_or_else" and len(args) == 3:
@@ -1671,11 +1720,11 @@ class Program:
         elif m == "unwrap_or" and len(args) == 2:
             r = ((good, pg), (bad, args[1]))
         elif m == "unwrap_or_else" and len(args) == 2:
-            d = ap(args[1], [] if opt else [pb])
+            d = ap(args[1], [] if opt else [pb], bad)
             if d is not None:
                 r = ((good, pg), (bad, d))
         elif m == "filter" and opt and len(args) == 2:
-            c = ap(args[1], [T.refval(pg)])
+            c = ap(args[1], [T.refval(pg)], good)
             if c is not None:
                 r = ((good, T.ite(c, SOME(pg), NONE)), (bad, NONE))
         elif m == "flatten" and opt and len(args) == 1:
@@ -1691,11 +1740,21 @@ class Program:
             return None
         if r is None:
             return None
+        if eff:
+            # the function ran only in one arm: its writes happen only there
+            if None in ran or len(ran) != 1:
+                return None
+            arm = next(iter(ran))
+            other = bad if arm == good else good
+            for lv, nv in eff:
+                an.write(st, lv, T.mterm(X, ((arm, nv), (other, an.read(st, lv)))))
         an.hint(X, "option::Option" if opt else "result::Result")
         return T.mterm(X, r)
 
-    def apply_fn(self, an, st, f, argvals):
-        """the value of f(argvals) for a closure value or function pointer f; None when it cannot be described by a term"""
+    def apply_fn(self, an, st, f, argvals, effects=None):
+        """the value of f(argvals) for a closure value or function pointer f; None when it cannot be described by a term.
+        Memory effects of f are applied to st, or - when `effects` is a list - appended to it as (lvalue, new value) for the caller to
+        apply under the condition under which f runs."""
         F = self.facts
         if f.op == "agg" and f.args[0] == "closure":
             lf = F.fn(f.args[1]) if isinstance(f.args[1], str) else None
@@ -1707,7 +1766,7 @@ class Program:
             if "&mut" in env_ty:
                 return None
             env = T.refval(f) if env_ty.startswith("&") else f
-            return self._apply_local(an, st, lf, [env] + list(argvals))
+            return self._apply_local(an, st, lf, [env] + list(argvals), effects)
         if f.op == "fnptr" or f.op == "zst":
             q = norm(f.args[0]) if isinstance(f.args[0], str) else None
             if q is None:
@@ -1717,7 +1776,7 @@ class Program:
             if lf is not None:
                 if any("&mut" in x for x in lf.get("sig", {}).get("inputs", [])):
                     return None
-                return self._apply_local(an, st, lf, list(argvals))
+                return self._apply_local(an, st, lf, list(argvals), effects)
             # tuple-variant / tuple-struct constructor used as a function
             owner, _, vn = q.rpartition("::")
             ad = F.adts.get(owner)
@@ -1727,17 +1786,31 @@ class Program:
                         return T.agg("adt", owner, i, vn, list(argvals))
             if q.startswith("<") or "{" in q:
                 return None
+            comb = self._combinator(an, st, q, list(argvals)) if argvals else None
+            if comb is not None:
+                return comb
             return T.call(q, (), [self._stabilise(an, st, a) for a in argvals])
         return None
 
-    def _apply_local(self, an, st, lf, args):
+    def writes_memory(self, lf):
+        """does the function write through a pointer (a `&mut` it holds, e.g. a closure's captured `&mut x`)?"""
+        key = ("writes", lf["id"])
+        if key not in self._hints:
+            sub = self.analysis(lf)
+            w = True
+            if sub is not None:
+                w = any(k[0][0] == "M" for env in sub.exit_env.values() for k in env)
+            self._hints[key] = w
+        return self._hints[key]
+
+    def _apply_local(self, an, st, lf, args, effects=None):
         if an.depth > 6:
             return None
         sub = self.analysis(lf)
         if sub is None:
             return None
         rt = sub.ret_term()
-        if rt is not None and self._closed(rt):
+        if rt is not None and self._closed(rt) and not self.writes_memory(lf):
             inst = self.subst(an, st, rt, args)
             if inst is not None:
                 return inst
@@ -1748,6 +1821,33 @@ class Program:
                 return inst
         if self.known_name(lf) and not any("&mut" in x for x in (lf.get("sig") or {}).get("inputs", [])):
             return T.call(lf["qual"], (), [self._stabilise(an, st, a) for a in args])    # a function the rules know by name
+        if not self.known_name(lf):
+            # a closure / helper that writes through references it holds (e.g. a captured `&mut offset`): apply its effects as well
+            from .summaries import tree_summary
+            ts = tree_summary(self, lf, [])
+            if ts is not None:
+                tree, extra = ts
+                cargs = [self._stabilise(an, st, a) for a in args]
+                inst = self.subst(an, st, tree, cargs)
+                targets = []
+                okx = inst is not None
+                for (root, path) in extra:
+                    ptr = self.subst(an, st, root[1], list(args)) if okx else None
+                    if ptr is None or ptr.op == "refval":
+                        okx = False
+                        break
+                    targets.append((ptr.args[0], tuple(ptr.args[1]) + tuple(path)) if ptr.op == "ref" else (("M", ptr), tuple(path)))
+                if okx:
+                    for k, lv in enumerate(targets):
+                        nv = T.proj(inst, ("f", 1 + k, None))
+                        for x in nv.subterms():
+                            if x.op == "bin" and x.args[0] == "Add":
+                                self.noovf.add(x)
+                        if effects is None:
+                            an.write(st, lv, nv)
+                        else:
+                            effects.append((lv, nv))
+                    return T.proj(inst, ("f", 0, None))
         return None
 
     def convert_err(self, an, st, callee, e):
@@ -1767,6 +1867,23 @@ class Program:
                     if inst is not None:
                         return inst
         return T.call("convert::From::from", (), [e])
+
+    def trait_impl(self, method_qual, self_ty):
+        """the in-crate fn `<self_ty as Trait>::m` for the trait-method name `path::Trait::m`; None if there is none / it is named by the rules"""
+        idx = self._hints.get("trait_impls")
+        if idx is None:
+            idx = {}
+            import re as _re
+            for fn in self.facts.all_fns():
+                m = _re.match(r"^<(.+) as ([^<>]+)>::(\w+)$", norm(fn["qual"]))
+                if m:
+                    idx[(m.group(2) + "::" + m.group(3), _re.sub(r"<.*$", "", m.group(1)))] = fn
+            self._hints["trait_impls"] = idx
+        import re as _re
+        imp = idx.get((method_qual, _re.sub(r"<.*$", "", norm(self_ty))))
+        if imp is None or self.known_name(imp):
+            return None
+        return imp
 
     def from_impl(self, dst, src):
         idx = self._hints.get("from_impls")
